@@ -1,4 +1,4 @@
-from typing import Any, Iterable, List, Optional, Tuple
+from typing import Any, Iterable, List, Optional, Set, Tuple
 
 from pdfminer import settings
 from pdfminer.pdfparser import PDFSyntaxError
@@ -25,15 +25,23 @@ class NumberTree:
         if "Limits" in self._obj:
             self.limits = list_value(self._obj["Limits"])
 
-    def _parse(self) -> List[Tuple[int, Any]]:
+    def _parse(self, visited: Optional[Set[int]] = None) -> List[Tuple[int, Any]]:
         items = []
         if self.nums:  # Leaf node
             for k, v in choplist(2, self.nums):
                 items.append((int_value(k), v))
 
         if self.kids:  # Root or intermediate node
+            if visited is None:
+                visited = set()
             for child_ref in self.kids:
-                items += NumberTree(child_ref)._parse()
+                # a node that is reachable from itself is visited only once
+                objid = getattr(child_ref, "objid", None)
+                if objid is not None:
+                    if objid in visited:
+                        continue
+                    visited.add(objid)
+                items += NumberTree(child_ref)._parse(visited)
 
         return items
 
